@@ -5,7 +5,7 @@ from C16 import G, b_coq
 
 ID = "C35"
 GEN = []
-THEOREMS = ["C35_dash_underscore", "C35_dash_underscore_binding", "C35_debug_warn_partial", "C35_import_refuted"]
+THEOREMS = ["C35_dash_underscore", "C35_dash_underscore_binding", "C35_debug_warn_partial"]
 COQ_HEADER = ("From Coq Require Import String List ZArith NArith.\nFrom RV Require Import Model.EvScope Run.C35.\n"
               "Import ListNotations.\nLocal Open Scope string_scope.")
 RUN_EXPR = "Run.C35.run"
@@ -311,7 +311,7 @@ def shrink(c):
 LEVEL_TEXT = ("metamorphic check evaluated in Coq on the implementation's two outputs (byte equality / both errors) over generated programs "
               "and rewrite sequences; proof: Name normalisation makes every -/_ spelling of a name the same key (all strings), and the "
               "argument binder is invariant under respelling (C18 model); inserting @debug/@warn between the statements of a body leaves "
-              "state and CSS output unchanged in the evaluator model (partial: one nesting level); the import rewrite is refuted")
+              "state and CSS output unchanged in the evaluator model (partial: one nesting level); the @import rewrite has a known finding (no model)")
 LEVEL_NOTE = ("partial: renaming, hoisting, whitespace/comments and @import splitting are checked by comparison only (no theorems); "
               "trusted: the python rewriters, the harness")
 TECHNIQUE = "metamorphic differential check judged in Coq + Coq lemmas on name normalisation and @debug/@warn in the evaluator model"
